@@ -82,7 +82,7 @@ func genCfg(rng *rand.Rand, ci int) cfgSpec {
 	mode := rng.IntN(20)
 	switch {
 	case mode == 0: // field omitted → WKP default
-	case mode == 1: // only illegal entries → WKP default
+	case mode <= 2: // only illegal entries → WKP default
 		for i := 0; i < 1+rng.IntN(3); i++ {
 			c.Prefixes = append(c.Prefixes, pick(rng, illegalPool))
 		}
@@ -363,7 +363,7 @@ func genAResp(rng *rand.Rand, m *model, qname string) respSpec {
 func genAAAAResp(rng *rand.Rand, m *model, qname string, k int) respSpec {
 	shape := weighted(rng, []wchoice{{"nodata-soa", 30}, {"nodata-nosoa", 6}, {"nodata-cname-soa", 6}, {"native", 6},
 		{"native-in-prefix", 2}, {"excluded-only", 8}, {"mixed", 6}, {"nxdomain", 6}, {"servfail-plain", 4},
-		{"servfail-ede", 12}, {"rcode-other", 5}, {"noerror-ede", 4}, {"servfail-2ede", 2}, {"marked-cached", 4},
+		{"servfail-ede", 12}, {"rcode-other", 5}, {"noerror-ede", 4}, {"servfail-multi-ede", 5}, {"marked-cached", 4},
 		{"marked-local-attempt", 2}, {"marked-local-deadline", 2}})
 	s := respSpec{Shape: shape, RA: rng.IntN(8) != 0, AD: rng.IntN(3) == 0, EDNS: rng.IntN(4) != 0}
 	zone := zoneOf(qname)
@@ -464,11 +464,19 @@ func genAAAAResp(rng *rand.Rand, m *model, qname string, k int) respSpec {
 		if rng.IntN(2) == 0 {
 			s.Ns = []string{soaRR(zone, pick(rng, soaTTLPool), pick(rng, soaMinPool))}
 		}
-	case "servfail-2ede":
+	case "servfail-multi-ede":
 		s.Rcode = dns.RcodeServerFailure
 		s.EDNS = true
-		neutral := pick(rng, []uint16{0, 3, 14, 22, 23})
-		s.EDE = []uint16{neutral, code}
+		// the decisive code is never the first option
+		neutrals := []uint16{0, 3, 14, 22, 23, 4, 15, 20}
+		s.EDE = []uint16{pick(rng, neutrals)}
+		if rng.IntN(2) == 0 {
+			s.EDE = append(s.EDE, pick(rng, neutrals))
+		}
+		s.EDE = append(s.EDE, code)
+		if rng.IntN(3) == 0 {
+			s.EDE = append(s.EDE, pick(rng, neutrals))
+		}
 	case "marked-cached":
 		s.Rcode = dns.RcodeServerFailure
 		s.Mark = "cached"
